@@ -224,6 +224,82 @@ theorem tcp_req_len_depends_only (a b : Bytes)
     Tcp.requestPduLen a = Tcp.requestPduLen b := by
   rw [tcp_req_len_eq_spec', tcp_req_len_eq_spec', hfc, predict_depends_only 7 .req a b hl hfc hc]
 
+/-- RTU requests, the part that agrees with the specification (function code not 0x0F / 0x10, open
+    finding D4): two buffers of equal length with the same function-code byte and the same count byte
+    at the position the SPECIFICATION names get the same answer -/
+theorem rtu_req_len_depends_only_partial (a b : Bytes)
+    (hl : a.length = b.length) (hfc : a[1]? = b[1]?)
+    (hd4 : a[1]? ≠ some 0x0F ∧ a[1]? ≠ some 0x10)
+    (hc : ∀ fc, a[1]? = some fc → ∀ o ∈ countOffsets (lenRule .req fc.toNat), a[1 + o]? = b[1 + o]?) :
+    Rtu.requestPduLen a = Rtu.requestPduLen b := by
+  rw [rtu_req_len_eq_spec_partial' a hd4, rtu_req_len_eq_spec_partial' b (hfc ▸ hd4), hfc,
+    predict_depends_only 1 .req a b hl hfc hc]
+
+/-- instance: a read-write-multiple request (0x17): only the length, byte 1 and byte 10 matter -/
+example : Rtu.requestPduLen [0x11, 0x17, 0, 1, 0, 2, 0, 3, 0, 2, 4, 9, 9, 9, 9]
+    = Rtu.requestPduLen [0x77, 0x17, 5, 5, 5, 5, 5, 5, 5, 5, 4, 1, 2, 3, 4] := by
+  apply rtu_req_len_depends_only_partial
+  · rfl
+  · rfl
+  · decide
+  · intro fc h o ho
+    have : fc = 0x17 := by simpa using h.symm
+    subst this
+    have : o = 9 := by simpa [countOffsets, lenRule] using ho
+    subst this; rfl
+
+/-- the request rules with a count byte: 0x0F / 0x10 (PDU offset 5) and 0x17 (PDU offset 9); every
+    other code's rule reads nothing beyond the function code (all 256 codes) -/
+theorem req_countOffsets (fc : UInt8) :
+    countOffsets (lenRule .req fc.toNat) =
+      if fc = 0x0F ∨ fc = 0x10 then [5] else if fc = 0x17 then [9] else [] := by
+  revert fc
+  apply byte_cases
+  decide +kernel
+
+/-- RTU requests AS BUILT, for ALL function codes (including the defective 0x0F / 0x10 arm): the answer
+    of `rtu::request_pdu_len` depends only on the buffer's length, on byte 1 (the function code), on
+    byte 4 when the code is 0x0F or 0x10 (the defective offset of open finding D4 — the specification
+    names byte 6), and on byte 10 when the code is 0x17.  No other byte is read. -/
+theorem rtu_req_len_depends_only_asbuilt (a b : Bytes)
+    (hl : a.length = b.length) (hfc : a[1]? = b[1]?)
+    (h4 : a[1]? = some 0x0F ∨ a[1]? = some 0x10 → a[4]? = b[4]?)
+    (h10 : a[1]? = some 0x17 → a[10]? = b[10]?) :
+    Rtu.requestPduLen a = Rtu.requestPduLen b := by
+  by_cases hd : a[1]? = some 0x0F ∨ a[1]? = some 0x10
+  · rw [rtu_req_len_defect a hd, rtu_req_len_defect b (hfc ▸ hd), h4 hd]
+  · have hd4 : a[1]? ≠ some 0x0F ∧ a[1]? ≠ some 0x10 := ⟨fun h => hd (.inl h), fun h => hd (.inr h)⟩
+    apply rtu_req_len_depends_only_partial a b hl hfc hd4
+    intro fc hfc' o ho
+    rw [req_countOffsets] at ho
+    have hne : ¬ (fc = 0x0F ∨ fc = 0x10) := by
+      intro h
+      rcases h with h | h
+      · exact hd4.1 (by rw [hfc', h])
+      · exact hd4.2 (by rw [hfc', h])
+    rw [if_neg hne] at ho
+    by_cases h17 : fc = 0x17
+    · rw [if_pos h17] at ho
+      have : o = 9 := by simpa using ho
+      subst this
+      exact h10 (by rw [hfc', h17])
+    · rw [if_neg h17] at ho
+      cases ho
+
+/-- instance on the defective arm: two write-multiple-registers frames that differ in the byte count
+    (byte 6, which the specification says decides) but agree in byte 4 get the SAME answer … -/
+example : Rtu.requestPduLen [0x11, 0x10, 0x00, 0x01, 0x00, 0x02, 0x04, 0xAA, 0xBB, 0xCC, 0xDD, 0x12, 0x34]
+    = Rtu.requestPduLen [0x22, 0x10, 0x99, 0x99, 0x00, 0x7B, 0xF6, 1, 2, 3, 4, 5, 6] := by
+  apply rtu_req_len_depends_only_asbuilt
+  · rfl
+  · rfl
+  · intro _; rfl
+  · intro h; cases h
+
+/-- … and the hypothesis on byte 4 cannot be dropped: these two differ only there -/
+example : Rtu.requestPduLen [0x11, 0x10, 0x00, 0x01, 0x00, 0x02, 0x04] = .ok (some 6) ∧
+    Rtu.requestPduLen [0x11, 0x10, 0x00, 0x01, 0x01, 0x02, 0x04] = .ok (some 7) := by decide +kernel
+
 /-- instance: a read-holding-registers response; only bytes 1 and 2 matter -/
 example : Rtu.responsePduLen [0x11, 0x03, 0x04, 1, 2, 3, 4] = Rtu.responsePduLen [0x77, 0x03, 0x04, 9, 8, 7, 6] := by
   apply rtu_rsp_len_depends_only
